@@ -1,0 +1,31 @@
+//go:build verif
+
+package dns
+
+// Instrumentation used only by the runtime-monitoring harness (build tag "verif").
+// Nothing here is compiled into a normal build.
+
+// VerifHook, when non-nil, is called at the hook points added to the server. buf is
+// only meaningful for the "serveDNS.poolPut" point (the buffer just recycled).
+var VerifHook func(point string, buf []byte)
+
+func verifHook(point string, buf []byte) {
+	if h := VerifHook; h != nil {
+		h(point, buf)
+	}
+}
+
+// VerifState reports the server's started flag and the number of tracked connections.
+func (srv *Server) VerifState() (started bool, conns int) {
+	srv.lock.RLock()
+	defer srv.lock.RUnlock()
+	return srv.started, len(srv.conns)
+}
+
+// VerifTsigVerify is TsigVerifyWithProvider with an explicit current time.
+func VerifTsigVerify(msg []byte, provider TsigProvider, requestMAC string, timersOnly bool, now uint64) error {
+	return tsigVerify(msg, provider, requestMAC, timersOnly, now)
+}
+
+// VerifTsigSecretProvider exposes the map-of-secrets provider used by clients and servers.
+func VerifTsigSecretProvider(m map[string]string) TsigProvider { return tsigSecretProvider(m) }
